@@ -126,6 +126,33 @@ register("C01",
          "TLA+ operational-vs-declarative model checked by TLC + exact TLC trace validation of implementation outputs",
          "DESIGN.md §4 C01")
 
+register("C03",
+         "SphereCells.tla defines the Voronoi tessellation combinatorially from a vertex-centre incidence (cells adjacent iff "
+         "they share >= 2 vertices; Euler's formula, >= 3 cells per vertex and total area 4*pi as self-checks of the oracle "
+         "evaluated inside TLC). For every N from 4 to 60 (quick) / 162 (thorough) of ico, cube3D and randomS (every N, incl. "
+         "the degenerate polytope grids) the code's adjacency, border, distance matrices and areas are logged as value "
+         "classes next to the incidence and geometric atoms of a brute-force oracle, and TLC decides: symmetry, empty "
+         "diagonal, one common pattern equal to the spec's adjacency, border = shared arc, distance = great-circle angle, "
+         "area = cell area, positivity.",
+         "The geometry (which vertices exist, arc lengths, areas) is the numeric oracle's (harness/oracles/sphere.py, "
+         "brute force over all centre triples, no code shared with molgri / scipy.spatial); the spec decides structure and "
+         "cross-matrix consistency. Value classes at relative 1e-9.",
+         "TLA+ combinatorial definition of the Voronoi complex + TLC trace validation of the implementation against an "
+         "independent brute-force oracle", "DESIGN.md §4 C03")
+
+register("C04",
+         "Fold.tla models the antipode fold operationally (index map guarded by array truthiness, in-place row sweep in column "
+         "order, extraction of the upper rows/columns) against the declarative fold 'R(i,j) or R(i,j+N)' and TLC checks "
+         "equality, symmetry and empty diagonal for all antipodally closed weighted relations on N<=3 (the index-0 "
+         "truthiness slip, a missing fold and self-touching cells are negative configs). For cube4D and randomQ, every N in "
+         "4..22 (quick) / 4..40 + samples to 60 (thorough), the full-sphere relation, face areas and folded angles of a "
+         "brute-force S^3 oracle are handed to TLC, which performs the declarative fold and compares the code's three "
+         "default matrices pair by pair (incl. index 0 and pairs adjacent only through the antipodal copy).",
+         "Geometry of the 2N-point Voronoi complex on S^3 from the numeric oracle (all 4-subsets; face = shared vertices of "
+         "rank >= 3); face areas compared at 1e-5 absolute; N <= 60.",
+         "TLA+ fold model checked by TLC + TLC trace validation against an independent brute-force oracle folded by the spec",
+         "DESIGN.md §4 C04")
+
 ALL = [f"C{i:02d}" for i in range(1, 21)]
 
 
